@@ -176,6 +176,8 @@ def ev_call(ex, n, st, spec, b):
     for a in n.args:
         if isinstance(a, ast.Starred):
             v = E(a.value)
+            if isinstance(v, Opt):
+                v = v.val if spec else ex.need_not_none(v, st, n, "star-argument")
             if isinstance(v, TupV):
                 args += list(v.items)
             elif isinstance(v, ListV) and all(z3.is_true(g) for g, _ in v.items):
